@@ -447,11 +447,16 @@ def _parse_fmt(fmt):
         # native order: only single-byte codes are layout-independent
         if any(ch not in "xcbBs?" for _, ch in items):
             if order == "@":
+                if len(items) == 1 and items[0][0] is None:
+                    return "@", items      # single native field: no alignment padding (x86-64 sizes)
                 raise Unsupported("native-alignment struct format %r" % fmt)
             order = "<"  # '=' on a little-endian host
         else:
             order = ">"
     return order, items
+
+
+_NATIVE_SIZES = dict(_SIZES, l=8, L=8)
 
 
 class SymStruct:
@@ -466,6 +471,10 @@ class SymStruct:
         if not any(isinstance(v, (SymNum, SymBool, SymBytes)) for v in vals):
             return _struct.pack(fmt, *vals)
         order, items = _parse_fmt(fmt)
+        sizes = _SIZES
+        if order == "@":
+            assert _struct.calcsize("l") == 8 and _struct.pack("H", 1) == b"\x01\x00", "native struct model is for x86-64 Linux"
+            sizes, order = _NATIVE_SIZES, "<"
         out = []
         vi = 0
         vals = list(vals)
@@ -505,7 +514,7 @@ class SymStruct:
                 if ch == "?":
                     out.append(1 if v else 0)
                     continue
-                size = _SIZES[ch]
+                size = sizes[ch]
                 if isinstance(v, SymBool):
                     v = v._as_num()
                 if isinstance(v, SymNum):
@@ -543,9 +552,20 @@ class SymStruct:
     def unpack(fmt, data):
         if isinstance(data, (bytes, bytearray, memoryview)):
             return _struct.unpack(fmt, data)
+        if hasattr(data, "materialize"):      # Blob: needs a provably concrete length
+            need0 = _struct.calcsize(fmt)
+            n0 = data.__symlen__()
+            if isinstance(n0, builtins.int):
+                if n0 != need0:
+                    raise _struct.error("unpack requires a buffer of %d bytes" % need0)
+            elif not bool(n0 == need0):
+                raise _struct.error("unpack requires a buffer of %d bytes" % need0)
+            data = data.materialize(need0)
         if not isinstance(data, SymBytes):
             raise TypeError("a bytes-like object is required")
         order, items = _parse_fmt(fmt)
+        if order == "@":
+            raise Unsupported("native struct.unpack on symbolic data")
         need = sum((cnt if cnt is not None else 1) * _SIZES[ch] for cnt, ch in items)
         n = data.__symlen__()
         if isinstance(n, builtins.int):
@@ -622,6 +642,34 @@ def std(*names, **extra):
 
 # --------------------------------------------------------------------------
 # commonly needed shadow modules (helpers that the targets import)
+
+
+def tobytes_(s, encoding="ascii", errors="strict"):
+    if isinstance(s, SymBytes) or hasattr(s, "materialize"):
+        return s
+    from fontTools.misc.textTools import tobytes
+
+    return tobytes(s, encoding, errors)
+
+
+def tostr_(s, encoding="ascii", errors="strict"):
+    if isinstance(s, SymBytes):
+        c = s.concrete()
+        if c is None:
+            return s          # stays a symbolic byte string (callers compare, never decode)
+        s = c
+    from fontTools.misc.textTools import tostr
+
+    return tostr(s, encoding, errors)
+
+
+def sstruct_shadow():
+    from . import loader
+
+    ft = fixed_tools()
+    return loader.shadow("fontTools.misc.sstruct",
+                         std("struct", "bytes", "len", fl2fi=ft.floatToFixed, fi2fl=ft.fixedToFloat,
+                             tobytes=tobytes_, tostr=tostr_), cache_key="std")
 
 
 def round_tools():
